@@ -68,7 +68,12 @@ def run(chk):
                 Y = (rng.integers(-8, 9, size=(k, m)) / 2.0) @ B[S].T
             else:
                 Y = rng.integers(-16, 17, size=(k, p)) / 4.0
-            case = {**cfg, "n_sensors": p, "selected": S, "measurements": Y.tolist(), "in_span": in_span, "basis_matrix": B.tolist()}
+                if rng.random() < 0.3:
+                    # the same kind of data held in an integer-typed array (counts, 8-bit pixels): the reconstruction is still real-valued
+                    dt = [np.int64, np.int32, np.int16, np.uint8, np.uint16][int(rng.integers(0, 5))]
+                    Y = (rng.integers(0, 33, size=(k, p)) if np.dtype(dt).kind == "u" else rng.integers(-16, 17, size=(k, p))).astype(dt)
+                    chk.count("measurements:" + np.dtype(dt).name)
+            case = {**cfg, "n_sensors": p, "selected": S, "measurements": Y.tolist(), "in_span": in_span, "basis_matrix": B.tolist(), "dtype": str(Y.dtype)}
             rank = U.exact_rank(BS)
             singular_square = (p == m and rank < m)
             chk.case(case, nontrivial=(not in_span) or p != m)
@@ -103,7 +108,7 @@ def run(chk):
                 chk.violation("impl", "vector-vs-batch", f"1-D input gives shape {np.shape(one)} / values differing from the one-row batch", ctx)
             if k >= 2:
                 al, be = 0.5, -1.5
-                comb = impl.quiet(model.predict, (al * Y[0] + be * Y[1]).copy())
+                comb = impl.quiet(model.predict, (al * Y[0].astype(float) + be * Y[1].astype(float)).copy())
                 if np.max(np.abs(comb - (al * out[0] + be * out[1]))) > tol:
                     chk.violation("impl", "not-linear", "predict(a*y1 + b*y2) differs from a*predict(y1) + b*predict(y2)", ctx)
             # wrong width is rejected
